@@ -22,6 +22,8 @@ def run(ctx):
     ctx.rule("R2", "every loop reachable from the reader API has a progress / bound argument")
     ctx.rule("R3", "both iterators yield only on the read < records edge, one increment per yield")
     ctx.rule("R4", "Blob::read hands its output only to io::copy(reader.take(self.length), writer)")
+    ctx.rule("R5", "the untrusted XML is parsed with DTDs disabled (no entity expansion)")
+    ctx.rule("R6", "no loop that appends to a collection scans that collection on every trip (linear work per call)")
     for cfg in ["lib", "lib_crc32c"]:
         prog, info = load_program(cfg, "e57")
         ctx.configs[cfg] = info
@@ -31,4 +33,6 @@ def run(ctx):
         pcw_rules.raw_reader_count(ctx, prog, "R3")
         pcw_rules.raw_reader_count(ctx, prog, "R3", path=simple_rules.IT, adt="pc_reader_simple::PointCloudReaderSimple", records=("pc", "records"))
         blob_rules.read_bounded(ctx, prog, "R4")
+        bound_rules.xml_parser_options(ctx, prog, "R5")
+        bound_rules.no_growing_rescan(ctx, prog, "R6")
     ctx.cfg = None
